@@ -36,8 +36,9 @@
                                there has z component (0 - 1/4) / t < 0: the returned component has the WRONG SIGN.
         FloatWitness.wrong_sign_binary64
                                REFUTATION 3 (whole solve, binary64, nsweep = 2, source on a node, heterogeneous 1 x 6 cells,
-                               dz = 1/2, dx = 4): the sign is recorded by a 3-point update in the sweeps; node (1,6) ends
-                               with z sign +1, a later z neighbour, and the returned component -0.9688 (c * s < 0).
+                               dz = 1/2, dx = 4): the signs are recorded by a 4-point update in the sweeps (tv = te = Big not
+                               reached yet, tev = 42: admissible, cf. four_point_not_causal); node (1,6) ends with z sign
+                               +1, a later z neighbour, and the returned component -0.9688 (c * s < 0).
    Non-vacuity: fteik2d_gradient_wrong_sign (the solver returns, so the premises of (G1)/(G3) are satisfiable),
    sweep_upwind_partial_ex, w2_model_ok.  The 3D analogue is not treated (the 3D initialisation has no source-line loops; a
    run of the homogeneous analogue with the implementation shows no sign mismatch against the analytic gradient). *)
@@ -1048,8 +1049,9 @@ Qed.
 (* ------------------------------------------------------------------------------------------ *)
 (* REFUTATION 3 (whole solve on binary64, the generated solver run by vm_compute; default nsweep = 2, source ON a node *)
 (* so that the initialisation records no sign).  1 x 6 cells of slowness 2, 4, 1/2, 2, 2, 4, dz = 1/2, dx = 4, source  *)
-(* at the node (0,0).  Node (1,6) lies 6 columns from the source (plane-wave branch): it ends with the recorded z sign  *)
-(* +1 while its z neighbour (0,6) is LATER (47.9066 > 45.9691); the returned z component is negative (-0.9688).         *)
+(* at the node (0,0).  Node (1,6) lies 6 columns from the source (plane-wave branch): in the first pass it is written by *)
+(* the 4-point operator with tv = te = Big (not reached), tev = 42 - admissible - and gets 45.9691 with signs (+1, +1);  *)
+(* its z neighbour (0,6) only comes down to 47.9066 and stays LATER; the returned z component is negative (-0.9688).     *)
 (* The same numbers come out of the Python implementation (numba), for nsweep = 2, 3, 10.                               *)
 (* ------------------------------------------------------------------------------------------ *)
 Module FloatWitness.
